@@ -38,11 +38,14 @@ def run(ctx):
         for v in vs:
             for _ in range(1 if q else 6):
                 tpl, sample = rng.choice(secretlib.SINGLE)
-                enc = rng.choice(secretlib.ENCLOSE) if '"' not in tpl and rng.random() < 0.5 else ("", "")
+                enc = rng.choice(secretlib.ENCLOSE + secretlib.ENCLOSE_REPEAT) if '"' not in tpl and rng.random() < 0.5 else ("", "")
                 combos.append((tpl, cls, v, enc))
     for tpl, sample in secretlib.SINGLE:           # every template with its own class and with text
         combos.append((tpl, textgen.classify(sample), None, ("", "")))
         combos.append((tpl, "text", None, rng.choice(secretlib.ENCLOSE) if '"' not in tpl else ("", "")))
+    for enc in secretlib.ENCLOSE_REPEAT:           # repeated enclosing characters, on a few plain line forms and on the whole line
+        for tpl in ("username x password {}", "snmp-server community {}", "enable secret {}"):
+            combos.append((tpl, rng.choice(["text", "hex", "numeric"]), None, enc))
     cases, metas = [], []
     for k in range(0, len(combos), 20):
         lines, ms = [], []
